@@ -52,7 +52,15 @@ type Decl struct {
 
 type File struct {
 	Dir   string `json:"dir"`
-	Decls []Decl `json:"decls"`
+	Decls []Decl `json:"decls"` // what reading <Dir>/BUILD.caco3 yields
+	// Link: <Dir>/BUILD.caco3 is a SYMBOLIC LINK with this target (relative to
+	// Dir): a shared build file kept elsewhere.  Decls is then the text the path
+	// resolves to (read as the build file of THIS package: relative names resolve
+	// against Dir); empty for a dangling link or a link to a directory (no build
+	// file).  TargetAt: where (relative to the workspace root) the harness writes
+	// that text when the target is not the build file of another package.
+	Link     string `json:"link,omitempty"`
+	TargetAt string `json:"target_at,omitempty"`
 }
 
 type Err struct {
@@ -221,6 +229,21 @@ func writeWorkspace(root string, c *Case) error {
 		p := "src/" + f.Dir + "/BUILD.caco3"
 		if f.Dir == "" {
 			p = "BUILD.caco3" // the root build file lives next to WORKSPACE.caco3
+		}
+		if f.Link != "" {
+			lp := filepath.Join(root, filepath.FromSlash(p))
+			if err := os.MkdirAll(filepath.Dir(lp), 0o755); err != nil {
+				return err
+			}
+			if err := os.Symlink(f.Link, lp); err != nil {
+				return err
+			}
+			if f.TargetAt != "" {
+				if err := writeFile(root, f.TargetAt, t.String()); err != nil {
+					return err
+				}
+			}
+			continue
 		}
 		if err := writeFile(root, p, t.String()); err != nil {
 			return err
